@@ -48,7 +48,8 @@ def odd_structure(rng, root, L, mp):
     import lzma
     d = os.path.join(root, os.path.dirname(mp))
     kind = rng.choice(['hidden_dir_entry', 'ignored_manifest', 'hidden_manifest', 'data_and_manifest',
-                       'corrupt_compressed', 'corrupt_compressed', 'now_ignored'])
+                       'corrupt_compressed', 'corrupt_compressed', 'now_ignored', 'files_file', 'odd_manifest_path',
+                       'self_reference', 'self_listing_sub', 'dup_lines_missing', 'sysfs_link'])
     subm = b'DATA f 1 SHA1 ' + _sha1(b'x').encode() + b'\n'
 
     def put(rel, data):
@@ -84,13 +85,55 @@ def odd_structure(rng, root, L, mp):
             good = {'gz': gzip.compress(subm), 'bz2': bz2.compress(subm), 'xz': lzma.compress(subm),
                     'lzma': lzma.compress(subm, format=lzma.FORMAT_ALONE)}[ext]
             data = {'trunc': good[:-6], 'garbage': b'not compressed at all\n', 'empty': b'', 'tail': good + b'junk',
-                    'half': good[:len(good) // 2]}[rng.choice(['trunc', 'garbage', 'empty', 'tail', 'half'])]
+                    'half': good[:len(good) // 2],
+                    # valid header of the format, then rubbish
+                    'body': good[:10] + b'\xff\xff\xff\xff garbage garbage garbage'}[
+                        rng.choice(['trunc', 'garbage', 'empty', 'tail', 'half', 'body', 'body'])]
             if not put('cc/Manifest.' + ext, data):
                 return []
             put('cc/f', b'x')
             if rng.random() < 0.4:
                 return []                   # left unregistered: update and create meet it
             return ['MANIFEST cc/Manifest.%s %d SHA1 %s' % (ext, len(data), _sha1(data))]
+        if kind == 'files_file' and os.path.dirname(mp) == '':
+            # a package whose `files` is a regular file (old-ebuild types the third component `files` as AUX)
+            put('oc/op/op-1.ebuild', b'EAPI=8\n')
+            put('oc/op/files', b'not a directory')
+            return []
+        if kind == 'odd_manifest_path':
+            # MANIFEST entries whose path cannot be handed to the OS (NUL, lone surrogate), or names a directory
+            put('om/f', b'x')
+            return [rng.choice(['MANIFEST om/Mani\\x00fest 0', 'MANIFEST om/\\uD800 0', 'MANIFEST om 0',
+                                'MANIFEST om/Mani\\x00fest.gz 0'])]
+        if kind == 'self_reference' and os.path.dirname(mp) == '':
+            # the top-level Manifest names itself as a sub-Manifest, or an unregistered Manifest.gz next to it does
+            if rng.random() < 0.5:
+                return ['MANIFEST Manifest 0']
+            import gzip as _gz
+            put('Manifest.gz', _gz.compress(b'MANIFEST Manifest 0\n'))
+            return []
+        if kind == 'self_listing_sub':
+            # an unregistered sub-Manifest that lists itself, with another unregistered one below it
+            if put('sl/Manifest', b'DATA Manifest 0\n'):
+                put('sl/deep/Manifest', b'')
+                put('sl/deep/f', b'x')
+            return []
+        if kind == 'dup_lines_missing':
+            # identical duplicate lines for a file that is gone, which an outer Manifest lists as well
+            if put('dl/Manifest', b'DATA a 1 SHA1 00\nDATA a 1 SHA1 00\n'):
+                put('dl/keep', b'k')
+                m_ = b'DATA a 1 SHA1 00\nDATA a 1 SHA1 00\n'
+                return ['MANIFEST dl/Manifest %d SHA1 %s' % (len(m_), _sha1(m_)), 'DATA dl/a 1 MD5 00']
+            return []
+        if kind == 'sysfs_link':
+            # a file whose st_size is not its length (sysfs), reached through a symlink
+            for cand in ('/sys/kernel/warn_count', '/sys/devices/system/cpu/online', '/sys/kernel/uevent_seqnum'):
+                if os.path.isfile(cand):
+                    lp = os.path.join(d, 'syslnk')
+                    if not os.path.lexists(lp):
+                        os.symlink(cand, lp)
+                    break
+            return []
         if kind == 'now_ignored' and os.path.dirname(mp) == '':
             # paths the ebuild profiles put under IGNORE in a Manifest they newly create
             rel = rng.choice(['metadata/timestamp', 'metadata/timestamp.chk', 'metadata/dtd/timestamp.chk',
